@@ -31,6 +31,8 @@ type cell struct {
 	guard   string // non-empty: the value must not be read (reason)
 	ty      string // loops mode: Coq type when it is not Z / bytes (list cells, sponge state)
 	pver    int    // loops mode, list cells: version of the slots (bumped by a pointer store l[i] = p)
+	moved   bool   // its pointer was stored into a slice slot: any later write through it would also change the slot
+	shares  *cell  // big.Int value copied from this cell by a struct copy (PrivKeyScalar(*s)): the limbs are shared
 }
 
 // object is one struct (Point, Signature, PointProjective).  Either `whole`
@@ -45,7 +47,8 @@ type object struct {
 	pidx   int
 	owner  *object
 	hint   string
-	pw     bool // whole is (a projection of) the incoming value of parameter pidx
+	pw     bool   // whole is (a projection of) the incoming value of parameter pidx
+	ro     string // non-empty: the field integers may be shared with an argument of the call that returned it (reason)
 }
 
 // val is the symbolic value of a Go expression.
@@ -70,6 +73,7 @@ type val struct {
 	trunc  bool   // kInt nat: a - b that may be negative in Go (only usable as index / bound)
 	str    string // kString: value of a constant string
 	hasStr bool
+	spare  bool // kSlice: x[:hi] of something longer: append may write into the storage behind it
 }
 
 // elemRef: the pointer stored in slot idx of the list behind cell c.
@@ -79,11 +83,28 @@ type elemRef struct {
 	pver int
 }
 
+// sameVal: two bindings of a variable denote the same thing (same storage,
+// same view bounds, same slot reference, same nil / error state).
+func sameVal(a, b *val) bool {
+	if a == b {
+		return true
+	}
+	if a.c != b.c || a.o != b.o || a.e != b.e || a.lo != b.lo || a.hi != b.hi || a.isNil != b.isNil ||
+		a.errK != b.errK || a.poison != b.poison || a.pend != b.pend || a.sq != b.sq {
+		return false
+	}
+	if (a.el == nil) != (b.el == nil) {
+		return false
+	}
+	return a.el == nil || (a.el.c == b.el.c && a.el.idx == b.el.idx && a.el.pver == b.el.pver)
+}
+
 type logEnt struct {
 	undo func()
 	c    *cell   // cell whose value changed
 	v    string  // variable re-bound
 	o    *object // struct whose fields / value were stored to
+	mv   *cell   // cell whose pointer was moved into a slice slot
 }
 
 type binding struct {
@@ -174,6 +195,9 @@ func (t *tr) read(c *cell) string {
 		t.fail("read of %s: %s", c.hint, c.guard)
 	}
 	t.noteRead(c)
+	if w := t.objStored; w != nil && c.origin == oPField && !c.written && c.owner != nil && c.owner.sd == w.sd && c.pidx != w.pidx {
+		t.fail("reads %s after a field of parameter %s was stored to: the two structs may be the same object (p.Add(p, q))", c.hint, w.hint)
+	}
 	if c.origin != oLocal && !c.written {
 		if (c.origin == oParam || c.origin == oPField) && c.pidx >= 0 {
 			t.paramRead[c.pidx] = true
@@ -224,6 +248,9 @@ func (t *tr) preWrite(c *cell) {
 	}
 	if c.noWrite != "" {
 		t.fail("in-place write to %s: %s", c.hint, c.noWrite)
+	}
+	if c.moved {
+		t.fail("in-place write to %s after its pointer was stored in a slice: the slot would change too", c.hint)
 	}
 	if c.owner != nil {
 		t.unwhole(c.owner)
@@ -295,6 +322,9 @@ func (t *tr) field(o *object, name string, idx int) *val {
 		}
 		v = &val{t: ft, c: c}
 	}
+	if o.ro != "" {
+		t.protect(v, o.ro)
+	}
 	t.setField(o, name, v)
 	return v
 }
@@ -316,6 +346,9 @@ func (t *tr) wholeOf(o *object) string {
 	if o.whole != "" {
 		if o.pw && o.pidx >= 0 {
 			t.paramRead[o.pidx] = true
+			if w := t.objStored; w != nil && o != w && o.sd == w.sd && o.pidx != w.pidx {
+				t.fail("reads %s after a field of parameter %s was stored to: the two structs may be the same object", o.hint, w.hint)
+			}
 		}
 		return o.whole
 	}
